@@ -65,14 +65,21 @@ def render_module(mod, ent, cache):
          "From Coq Require Import List Arith ZArith Lia Bool.",
          ent["imports"], "Import ListNotations.", "",
          "Section Src%s." % mod, "Context {A : Arith}.", ""]
-    sigs = {}
+    sigs, errors = {}, {}
     for spec in ent["funcs"]:
         rel = spec["file"]
-        if rel not in cache:
-            cache[rel] = rust2coq.parse_file(_src(rel), rel)
-        header, fn = rust2coq.find_fn(cache[rel], spec["impl"], spec["fn"], "%s (%s)" % (spec["name"], rel))
-        tr = rust2coq.Translator(r2c_table, spec)
-        gparams, term, rty = tr.function(fn, header)
+        try:
+            if rel not in cache:
+                cache[rel] = rust2coq.parse_file(_src(rel), rel)
+            header, fn = rust2coq.find_fn(cache[rel], spec["impl"], spec["fn"], "%s (%s)" % (spec["name"], rel))
+            tr = rust2coq.Translator(r2c_table, spec)
+            gparams, term, rty = tr.function(fn, header)
+        except TieBroken as e:
+            # the definition is NOT emitted: the lemma src_<name> of Proofs/SrcEq<Module>.v no longer compiles, and the
+            # message is returned to the caller of regenerate() (d["src_tie_broken"]); nothing is approximated
+            errors[spec["name"]] = str(e)
+            L.append("(* TIE BROKEN -- s_%s is not generated: %s *)\n" % (spec["name"], str(e).replace("*)", "* )")))
+            continue
         ps = " ".join("(%s : %s)" % (n, t) for n, t in gparams)
         L.append("(* %s : impl %s :: fn %s *)" % (rel, " ".join(header.split()), spec["fn"]))
         gty = rust2coq.gtype(rty)
@@ -80,30 +87,35 @@ def render_module(mod, ent, cache):
         L.append("Definition s_%s %s : res %s :=\n  %s.\n" % (spec["name"], ps, gty, rust2coq.pp(term, 2)))
         sigs[spec["name"]] = (gparams, rty)
     L += ["End Src%s." % mod, ""]
-    return "\n".join(L), sigs
+    return "\n".join(L), sigs, errors
 
 def render_all(only=None):
-    out, cache, summary = {}, {}, {}
+    out, cache, summary, broken = {}, {}, {}, {}
     out["SrcPrelude"] = PRELUDE
     for mod, ent in r2c_table.MODULES.items():
         if only and mod not in only: continue
-        text, sigs = render_module(mod, ent, cache)
+        text, sigs, errors = render_module(mod, ent, cache)
         out["Src" + mod] = text; summary[mod] = sorted(sigs)
-    return out, summary
+        for k, v in errors.items(): broken["%s.%s" % (mod, k)] = v
+    return out, summary, broken
 
 _regen_prev = translate.regenerate
 def regenerate():
     changed, d = _regen_prev()
-    files, summary = render_all()
+    files, summary, broken = render_all()
     for name, text in files.items():
         if write_if_changed(os.path.join(COQDIR, "gen", name + ".v"), text):
             changed.append("gen/%s.v" % name)
     d["src_functions"] = summary
+    d["src_tie_broken"] = broken          # function -> message; the src_<function> lemma of that module cannot compile
+    if broken and os.environ.get("R2C_STRICT") == "1":
+        raise TieBroken("; ".join("%s: %s" % kv for kv in sorted(broken.items())))
     return changed, d
 translate.regenerate = regenerate          # chained the same way translate.py chains its own wrappers
 
 if __name__ == "__main__":
-    files, summary = render_all(sys.argv[1:] or None)
+    files, summary, broken = render_all(sys.argv[1:] or None)
     for name, text in files.items():
         p = os.path.join(COQDIR, "gen", name + ".v")
         print(("wrote " if write_if_changed(p, text) else "unchanged ") + p)
+    for k, v in sorted(broken.items()): print("TIE BROKEN %s: %s" % (k, v))
